@@ -475,6 +475,8 @@ def check(ctx):
 
 
 VARIANTS = [
+    M('R4', RD, "                datarate, address, start, stop, packet = command[2]\n                self._radio.set_data_rate(datarate)\n                self._radio.set_address(address)", "                datarate, address, start, stop, packet = command[2]\n                self._radio.set_data_rate(datarate)", 'channel scan keeps the previous address'),
+    M('R1', 'cflib/crtp/usbdriver.py', "        uri_data = re.search('^usb://([0-9]+)$',", "        uri_data = re.search('^usb://([0-9]+)',", 'usb pattern without end anchor'),
     M('R2', RD, "        if len(parsed_uri.netloc) < 10 and parsed_uri.netloc.isdigit():", "        if parsed_uri.netloc.isdigit():", 'all-digit serial read as an index'),
     M('R1', 'cflib/crtp/tcpdriver.py', "        if not re.search('^tcp://', uri):\n            raise WrongUriType('Not an UDP URI')\n", "", 'tcp driver claims everything'),
     M('R1', 'cflib/crtp/udpdriver.py', "        if not re.search('^udp://', uri):", "        if not re.search('^tcp://', uri):", 'udp driver claims tcp'),
